@@ -25,3 +25,22 @@ def debug_logging(on):
         root.removeHandler(h)
         root.setLevel(old_level)
         logging.disable(old_disable)
+
+
+@contextlib.contextmanager
+def closed_stderr(on):
+    """sys.stderr is a CLOSED text stream (a daemon after `2>&-`, a GUI launcher): anything that writes to it raises ValueError.
+    The harness itself never writes to sys.stderr inside a run (progress is printed by the batch driver in the parent)."""
+    import io
+    import sys
+    if not on:
+        yield
+        return
+    old = sys.stderr
+    dead = io.StringIO()
+    dead.close()
+    sys.stderr = dead
+    try:
+        yield
+    finally:
+        sys.stderr = old
